@@ -216,8 +216,23 @@ def main(tier, replay=None):
         if sel and chg:
             nt.add(" ".join(ops))
     n_out = n_canc = 0
+    W = "4294967295"
+
+    def table_of(snap):
+        t = snap.split("/")[1][1:]
+        return [tuple(e.split(".")) for e in t.split(",")] if t else []
+
+    def watermarks(snap):
+        """(next change id, watermarks of table subscriptions, of contexts)"""
+        parts = snap.split("/")
+        nxt = int(parts[0].split(".")[2])
+        sw = [int(u.split(".")[9]) for u in parts[2][1:].split(",") if u]
+        xw = [int(u.split(".")[9]) for u in parts[3][1:].split(",") if u]
+        return nxt, sw, xw
+
     for line in open(trace_in):
         seen_o = seen_c = False
+        prev = None
         for tok in line.split(" ")[2:]:
             parts = tok.split("~")
             if len(parts) != 3:
@@ -227,6 +242,31 @@ def main(tier, replay=None):
                 seen_o = True
             if ".1/T" in snap:
                 seen_c = True
+            if parts[0][0] == "C" and prev is not None:
+                # which arm of record_raw / promote_and_insert did the real table take (from its own snapshots)
+                _, ep, cl, at = parts[0].split(":")
+                before, after = table_of(prev), table_of(snap)
+                if len(before) == 16 and at != W:
+                    covered = any((e[0] in ("65535", ep)) and (e[1] in (W, cl)) and (e[2] in (W, at)) for e in before)
+                    if not covered:
+                        bset = set(e[:3] for e in before)
+                        new_wild = [e for e in after if e[2] == W and e[:3] not in bset]
+                        if len(after) == 1 and after[0][:3] == ("65535", W, W):
+                            hit("overflow_global_wildcard")
+                            nxt, sw, xw = watermarks(prev)
+                            if any(w == nxt - 1 for w in sw) and any(w < nxt - 1 for w in sw + xw):
+                                hit("overflow_global_with_caught_up_and_lagging")
+                        elif any(e[1] == W and e[0] != "65535" for e in new_wild):
+                            hit("overflow_promote_level2")
+                        elif any(e[1] != W for e in new_wild):
+                            hit("overflow_promote_level1")
+                        if new_wild and (ep, cl, at) not in set(e[:3] for e in after):
+                            hit("overflow_new_change_covered_after_promotion")
+                elif at != W and (ep, cl, at) in set(e[:3] for e in before):
+                    hit("record_refresh_same_entry")
+                elif at == W and len(after) < len(before) + 1 and len(before) > 0:
+                    hit("record_wildcard_absorbs")
+            prev = snap
         n_out += seen_o
         n_canc += seen_c
     arms["purge_with_context_outstanding(cases)"] = n_out
@@ -242,12 +282,15 @@ def main(tier, replay=None):
     expected_arms = ["change_concrete", "change_wildcard", "subscribe_ok", "subscribe_full", "report_selected",
                      "report_none_reportable", "report_slot_busy", "read_emitted", "read_skipped", "end_o", "end_f", "end_d",
                      "remove_hit", "sweep_expired", "restart", "persist", "purge", "event", "coalesced_by_overflow",
-                     "purge_with_context_outstanding(cases)", "in_flight_cancelled(cases)"]
+                     "purge_with_context_outstanding(cases)", "in_flight_cancelled(cases)",
+                     "overflow_promote_level1", "overflow_promote_level2", "overflow_global_wildcard",
+                     "overflow_global_with_caught_up_and_lagging", "overflow_new_change_covered_after_promotion",
+                     "record_refresh_same_entry", "record_wildcard_absorbs"]
     c.cov.update({
         "evaluations": len(case_by_key),
         "operations_run": n_steps,
         "distinct_nontrivial": len(nt),
-        "rule": "one case = one operation sequence (<= 60 ops, table of 4 subscriptions, 24 attribute paths) run on the real table and on "
+        "rule": "one case = one operation sequence (<= 60 ops, table of 4 subscriptions, 44 attribute paths of which 20 on endpoints of their own) run on the real table and on "
                 "the model; compared: every output and, after every operation, a digest of table + contexts + all timing decisions, plus the "
                 "final state in clear; non-trivial = distinct operation sequence in which report() selected a subscription at least once "
                 "and at least one change was recorded",
